@@ -81,13 +81,20 @@ def build(case, tmp):
     elif fmt == 'v2':
         syn = h5synth.make_v2(path, rng, T=case['T'], F=case['F'], n_ants=case['n_ants'], shuffle_bls=True,
                               dup_final_dump=case['dup'], open_kwargs={'keepdims': case['keepdims']},
-                              lost=case.get('lost') or None)
+                              lost=case.get('lost') or None,
+                              **({'centre_freq': [(-2.0, case['cf2']['first']), (case['cf2']['at'] - 0.4,
+                                                                                   case['cf2']['second'])]}
+                                 if case.get('cf2') else {}))
         tr.keepdims = case['keepdims']
     else:
         n = max(1, case['T'] // 3)
         scans = [('slew', 'Alpha, radec, 19:39:25.03, -63:42:45.6', 1),
                  ('scan', 'Alpha, radec, 19:39:25.03, -63:42:45.6', n),
                  ('scan', 'Beta, radec, 04:08:20.38, -65:45:09.1', max(1, case['T'] - n - 1))]
+        if case.get('v1_many'):
+            # more than ten compound scans (group numbers with two digits), one or two dumps each
+            scans = [('scan', ('Alpha, radec, 19:39:25.03, -63:42:45.6', 'Beta, radec, 04:08:20.38, -65:45:09.1')[k % 2],
+                      1 + (k % 3 == 0)) for k in range(12)]
         syn = h5synth.make_v1(path, rng, scans=scans, F=case['F'], n_ants=min(case['n_ants'], 2))
         tr.keepdims = True
     tr.vis, tr.flags_raw, tr.weights = syn.vis, syn.flags_raw, syn.weights
@@ -133,7 +140,13 @@ def gen_case(rng, fmt=None):
                 dup=rng.random() < 0.4, sideband=rng.choice([1, 1, -1]), keepdims=rng.random() < 0.4,
                 via_rdb=rng.random() < 0.35, start_times=rng.random() < 0.3,
                 cbf_int_time=rng.choice([None, 0.5, 0.25]))
-    if fmt == 'v2' and T >= 5 and rng.random() < 0.35:
+    if fmt == 'v2' and T >= 4 and rng.random() < 0.4:
+        first = rng.choice([1822e6, 1900e6])
+        case['cf2'] = dict(first=first, second=first + rng.choice([-100e6, 100e6]), at=rng.randint(1, T - 1))
+        case['dup'] = False
+    if fmt == 'v1' and rng.random() < 0.3:
+        case['v1_many'] = True
+    if fmt == 'v2' and T >= 5 and not case.get('cf2') and rng.random() < 0.35:
         # dumps that were never written: irregular timestamps (labels and sensors must follow the real times)
         case['lost'] = sorted(rng.sample(range(1, T - 1), rng.randint(1, min(2, T - 3))))
     n_ants = case['n_ants'] if fmt != 'v1' else min(case['n_ants'], 2)
@@ -225,9 +238,45 @@ def run_case(ctx, case):
                 d, tr = build(case, tmp)
             except Exception as e:   # noqa: BLE001
                 return f"opening a synthetic {case['fmt']} data set raised {type(e).__name__}: {str(e)[:120]}", False
+            if case.get('cf2'):
+                return multi_spw(ctx, case, d, tr), True
             return drive(ctx, case, d, tr)
     finally:
         shutil.rmtree(tmp, ignore_errors=True)
+
+
+def multi_spw(ctx, case, d, tr):
+    """a v2 file whose centre frequency changes during the observation: spectral windows in order of first
+    appearance; select(spw=k) (0 by default) exposes the dumps observed in window k with that window's freqs"""
+    cf = case['cf2']
+    T, F = len(tr.timestamps), len(tr.freqs)
+    bw = tr.syn.bandwidth
+    centres = [cf['first'], cf['second']]
+    want_dumps = [list(range(0, cf['at'])), list(range(cf['at'], T))]
+    if len(d.spectral_windows) != 2:
+        return f'{len(d.spectral_windows)} spectral windows for an observation with two centre frequencies'
+    for k in (None, 0, 1, 0):
+        if k is not None:
+            d.select(spw=k)
+        kk = 0 if k is None else k
+        label = 'after opening' if k is None else f'select(spw={k})'
+        freqs = centres[kk] - bw * (np.arange(F) - F // 2) / F
+        dumps = [int(x) for x in d.dumps]
+        if dumps != want_dumps[kk]:
+            return f'{label}: dumps {dumps}, the dumps observed at centre frequency {centres[kk]:g} are {want_dumps[kk]}'
+        if not np.allclose(np.asarray(d.freqs), freqs, rtol=0, atol=1e-3):
+            return (f'{label}: freqs centred on {float(np.asarray(d.freqs)[F // 2]):.6g} Hz but the exposed dumps were '
+                    f'observed at centre frequency {centres[kk]:.6g} Hz')
+        if not np.array_equal(np.asarray(d.timestamps[:]), tr.timestamps[dumps]):
+            return f'{label}: timestamps are not those of the exposed dumps'
+        cpidx = [tr.corrprods.index(tuple(c)) for c in d.corr_products]
+        if not np.array_equal(np.asarray(d.vis[:]), tr.vis[np.ix_(dumps, range(F), cpidx)]):
+            return f'{label}: vis is not the stored data of the exposed dumps'
+        si = [int(x) for x in d.sensor['Observation/spw_index']]
+        if si != [kk] * len(dumps):
+            return f'{label}: Observation/spw_index reads {si}'
+    ctx.tag('v2-two-spectral-windows-' + ('descending' if cf['second'] < cf['first'] else 'ascending'))
+    return None
 
 
 def mask_str(n, idxs):
@@ -355,6 +404,50 @@ def drive(ctx, case, d, tr):
                     return (f'{name} indexer acquired before a select() call no longer describes the selection that was '
                             f'in force when it was obtained (got shape {g.shape}, expected {e.shape})'), nontrivial
             ctx.tag('snapshot')
+    # --- strided time slices whose phase differs from internal boundaries (scan groups of v1 files, chunks)
+    dumps, chans = [int(x) for x in d.dumps], [int(x) for x in d.channels]
+    cpidx = [tr.corrprods.index(tuple(c)) for c in d.corr_products]
+    srng = random.Random(case['seed'] + 17)
+    n = len(dumps)
+    for _ in range(4):
+        if n < 2 or not chans or not cpidx:
+            break
+        step = srng.randint(2, 5)
+        sl = slice(srng.randint(0, n - 1), srng.choice([None, srng.randint(1, n)]), step)
+        want_d = dumps[sl]
+        if not want_d:
+            continue
+        try:
+            got_t, got_v = np.asarray(d.timestamps[sl]), np.asarray(d.vis[sl])
+        except Exception as e:   # noqa: BLE001
+            return f'strided time slice {sl} raised {type(e).__name__}: {str(e)[:80]}', nontrivial
+        want_v = tr.vis[np.ix_(want_d, chans, cpidx)]
+        if got_t.shape != (len(want_d),) or not np.array_equal(got_t, tr.timestamps[want_d]):
+            return (f'timestamps[{sl.start}:{sl.stop}:{sl.step}] = dumps at {got_t.tolist()[:5]} instead of the '
+                    f'selected dumps {want_d[:5]} ({tr.timestamps[want_d].tolist()[:5]})'), nontrivial
+        if got_v.shape != want_v.shape or not np.array_equal(got_v, want_v):
+            return f'vis[{sl.start}:{sl.stop}:{sl.step}] is not the stored data of dumps {want_d[:6]}', nontrivial
+        ctx.tag('strided-time-slice')
+    # --- per-dump sensors keep following the selection while scans() iterates and after it has finished
+    try:
+        full = np.asarray(d.sensor.get('Observation/scan_index')[:])
+        seen = 0
+        for _scan in d.scans():
+            cur = [int(x) for x in d.dumps]
+            si = np.asarray(d.sensor['Observation/scan_index'])
+            if si.shape != (len(cur),) or not np.array_equal(si, full[cur]):
+                return (f'inside scans() (scan {seen}): the per-dump sensor has {si.shape[0] if si.ndim else 0} values for '
+                        f'{len(cur)} exposed dumps or other values than the full-length sensor at those dumps'), nontrivial
+            seen += 1
+        cur = [int(x) for x in d.dumps]
+        si = np.asarray(d.sensor['Observation/scan_index'])
+        # (whether the selection itself is restored is property C03's business; here: sensors follow d.dumps)
+        if si.shape != (len(cur),) or not np.array_equal(si, full[cur]):
+            return 'after scans() the per-dump sensor does not follow the dumps the data set reports', nontrivial
+        if seen:
+            ctx.tag('sensor-during-scans')
+    except Exception as e:   # noqa: BLE001
+        return f'scans() on the data set raised {type(e).__name__}: {str(e)[:80]}', nontrivial
     return None, nontrivial
 
 
